@@ -15,7 +15,7 @@ RULE = ('(transfer) a real BTP-U agent segments a generated bundle (1..20000 oct
         'payloads concatenated by index == bundle, the last is a Transfer End with the highest index.  The frames are then '
         'handed to the real _recv_msg of a second agent in a generated permutation (ALL permutations for transfers with <= '
         '5 segments), interleaved with a second transfer on another transfer number or another channel, one message per frame or '
-        'two / three consecutive arrivals put into one frame: exactly one item equal to the bundle is queued, and only when the last missing segment arrives.  '
+        'two / three consecutive arrivals put into one frame (and, in a third of the cases, followed by a second transfer under the same number whose segments arrive 300 ms apart): exactly one item equal to the bundle is queued, and only when the last missing segment arrives.  '
         '(codec, both directions: decode a reference frame and re-encode it; build the same message set from objects and read it with the independent parser; the same hint may occur twice in a list) reference-encoded frames (bundle PDU, transfer segment/end with 0-3 hints of 0-255 octets, definite '
         'padding, several messages per frame, zero padding) must decode to the same messages and re-encode to the same '
         'octets.  Non-trivial = >= 3 segments in non-index order, or a codec frame with >= 2 messages; distinct by SHA-1.')
@@ -75,7 +75,8 @@ def transfer_cases(draw):
     return {'kind': 'transfer', 'mtu': mtu, 'length': length, 'seed': draw(st.integers(0, 99)), 'xfer': xfer,
             'other': draw(st.sampled_from([None, 'number', 'channel'])), 'arrival': arrival,
             'gap_ms': draw(st.sampled_from([0, 0, 300, 900])),
-            'group': draw(st.one_of(st.just([]), st.lists(st.integers(1, 3), max_size=8)))}
+            'group': draw(st.one_of(st.just([]), st.lists(st.integers(1, 3), max_size=8))),
+            'again': draw(st.sampled_from([False, False, True]))}
 
 
 @st.composite
@@ -124,6 +125,8 @@ def enumerate_cases(tier):
                 choices.append(remaining.index(pick))
                 remaining.remove(pick)
             yield {'kind': 'transfer', 'mtu': mtu, 'length': length, 'seed': 1, 'xfer': 7, 'other': None, 'arrival': choices}
+            if choices == [0] * 5:
+                yield {'kind': 'transfer', 'mtu': mtu, 'length': length, 'seed': 1, 'xfer': 7, 'other': None, 'arrival': choices, 'again': True}
             if (mtu, length) == combos[1]:
                 # the same arrival orders with two or three messages per frame
                 for group in ([2, 2, 2], [3, 3], [1, 3, 1]):
@@ -310,6 +313,33 @@ def run_transfer(case, out):
             if sorted(blobs, key=repr) != sorted((wants[w] for w in completed), key=repr):
                 out.fail('reassembled-bundle-differs', 'queued bundle(s) have %s octets, original(s) %s (%s, arrival %s)'
                          % ([None if b is None else len(b) for b in blobs], [len(wants[w]) for w in completed], where, order[:12]))
+    if case.get('again') and not case.get('other') and len(frames) >= 2 and all(len(g) == need[0] for g in got[:1]):
+        # the sender starts over (its transfer numbers begin again): another bundle under the same transfer number right
+        # after the first one completed, its segments 300 ms apart - each well within the receive timeout, the whole of it
+        # reaching past one second after the completion of the first
+        data2 = strat9174.content(max(length, 5 * ((mtu or 64) - 18)), case['seed'] + 900)
+        frames2 = frames_of(sender, sctx, data2, case['xfer'])
+        out.label('same-number-again:%s' % ('1' if len(frames2) == 1 else '2+'))
+        base_ev = len([e for e in dbus.RECORDER.events if e['kind'] == 'signal' and e['member'] == 'recv_bundle_finished' and e['obj'] is receiver])
+        for idx2, frame in enumerate(frames2):
+            simloop.advance_to(simloop.CLOCK.now_ms + 300)
+            for _ in range(50):
+                if not rctx.iterate():
+                    break
+            with simloop.entered(rctx):
+                try:
+                    receiver._recv_msg(None, frame, chan)
+                except Exception as exc:
+                    out.fail('recv-raises:%s' % type(exc).__name__, '_recv_msg raised %s: %s (%s, second transfer)' % (type(exc).__name__, exc, where))
+                    return
+        evs2 = [e for e in dbus.RECORDER.events if e['kind'] == 'signal' and e['member'] == 'recv_bundle_finished' and e['obj'] is receiver][base_ev:]
+        if len(evs2) != 1:
+            out.fail('not-queued-when-complete', 'a second transfer under the number of one completed %d ms earlier (its %d segments 300 ms apart) '
+                     'was delivered completely and %d bundles were queued (%s)' % (300 * len(frames2), len(frames2), len(evs2), where))
+        else:
+            item = receiver._rx_queue.get(int(evs2[0]['args'][0]))
+            if item is None or item.file.getvalue() != data2:
+                out.fail('reassembled-bundle-differs', 'the second transfer under the same number was queued with other content (%s)' % where)
     # long after everything is complete: whatever timers are left must not do any harm
     simloop.advance_to(simloop.CLOCK.now_ms + 2500)
     for _ in range(200):
